@@ -18,10 +18,10 @@ ASSUMPTIONS = ['finite standard models with type-variable domains of size <= 3, 
                'Some/The interpreted by one fixed choice function satisfying some_AX / the_equality',
                '_VAR interpreted as the constantly true predicate',
                'evaluator calibrated at start-up: every theorem of logic_base must be valid in it']
-REQUIRED = {'quick': {'scripts_accepted': 300, 'sequents_judged': 1500, 'rules_all15_seen': 1,
+REQUIRED = {'quick': {'nested_scripts': 100, 'nested_accepted': 20, 'scripts_accepted': 300, 'sequents_judged': 1500, 'rules_all15_seen': 1,
                       'directed_stv_substitutions': 150, 'directed_capture_attempts': 60, 'directed_sharing_binders': 100,
                       'open_term_arguments': 40},
-            'thorough': {'scripts_accepted': 5000, 'sequents_judged': 20000, 'rules_all15_seen': 1,
+            'thorough': {'nested_scripts': 1500, 'nested_accepted': 300, 'scripts_accepted': 5000, 'sequents_judged': 20000, 'rules_all15_seen': 1,
                          'directed_stv_substitutions': 1500, 'directed_capture_attempts': 600, 'directed_sharing_binders': 1000,
                          'open_term_arguments': 400}}
 
@@ -519,6 +519,68 @@ def calibrate(ctx):
     return bad
 
 
+def nested_variant(ctx, steps, flat_prf, cache, seedinfo):
+    """the same script as ONE block (rule `subproof`) whose lines carry STATED sequents - the true ones, and for one
+    line possibly a false one (hypotheses dropped / the statement of another line / a generalisation): the checker
+    must compare every stated sequent with what the rule yields, also inside blocks and with gaps disallowed"""
+    from kernel.proof import Proof, ProofItem
+    from kernel.thm import Thm
+    from kernel import theory
+    rng = ctx.rng
+    n = len(steps)
+    if n < 2:
+        return
+    true_ths = [it.th for it in flat_prf.items]
+    liar = rng.randrange(n) if rng.random() < 0.6 else None
+    inner = []
+    for k, st in enumerate(steps):
+        th = true_ths[k] if rng.random() < 0.5 else None
+        if k == liar:
+            how = rng.choice(['drop-hyps', 'other-line', 'other-line'])
+            if how == 'drop-hyps' and true_ths[k].hyps:
+                th = Thm(true_ths[k].prop)
+            else:
+                j = rng.randrange(n)
+                th = Thm(true_ths[j].prop, *true_ths[k].hyps) if j != k else None
+            if th is None:
+                liar = None
+        it = ProofItem((0, k), st['rule'], args=st['args'], prevs=[(0, p) for p in st['prevs']], th=th)
+        inner.append(it)
+    blk = ProofItem((0,), 'subproof')
+    blk.subproof = Proof()
+    blk.subproof.items = inner
+    if rng.random() < 0.5:
+        blk.th = true_ths[-1] if liar != n - 1 or inner[-1].th is None else inner[-1].th
+    prf = Proof()
+    prf.items = [blk]
+    ctx.count('nested_scripts')
+    if liar is not None:
+        ctx.count('nested_scripts_with_a_false_statement')
+    try:
+        theory.thy.check_proof(prf, no_gaps=True)
+    except Exception as e:
+        ctx.count('nested_rejected:' + type(e).__name__)
+        return
+    ctx.count('nested_accepted')
+    for k, it in enumerate(inner + [blk]):
+        if it.th is None:
+            continue
+        sh = S.thm_shadow(it.th)
+        key = (tuple(sorted(map(S.alpha, sh[0]), key=repr)), S.alpha(sh[1]))
+        if key not in cache:
+            cache[key] = H.refute(sh[0], sh[1], ctx.rng)
+            ctx.count('sequents_judged')
+        res, w = cache[key]
+        if res in ('refuted', 'ill_typed'):
+            rule = steps[k]['rule'] if k < n else 'subproof'
+            ctx.violation('nested:%s:stated-sequent-accepted-though-it-does-not-follow' % rule,
+                          'check_proof(no_gaps=True) accepted a block in which line %d (%s) states %s |- %s ; %s: %s' % (
+                              k, rule, ', '.join(S.tm_str(h, True) for h in sh[0]), S.tm_str(sh[1], True), res, w),
+                          {'script': [{'rule': s_['rule'], 'args': ser_arg(s_['rule'], s_['args']), 'prevs': s_['prevs']} for s_ in steps],
+                           'nested': True, 'liar': liar, 'item': k, 'oracle': res, 'countermodel': w, **seedinfo})
+            return
+
+
 def check_script(ctx, steps, cache, seedinfo):
     """send through the real checker; on rejection drop the first unverified item and retry"""
     from kernel import theory
@@ -545,7 +607,9 @@ def check_script(ctx, steps, cache, seedinfo):
         ctx.count('scripts_accepted')
         for st in steps:
             ctx.count('rule_ok:' + st['rule'])
-        judge_proof(ctx, prf, steps, cache, seedinfo)
+        st_ = judge_proof(ctx, prf, steps, cache, seedinfo)
+        if not any(x in ('refuted', 'ill_typed') for x in st_) and ctx.rng.random() < 0.5:
+            nested_variant(ctx, steps, prf, cache, seedinfo)
         return prf, steps
     return None
 
